@@ -420,7 +420,7 @@ func runC15(w *core.World, r *core.Report) {
 		}
 	}
 	n9 := checkNarrowing(w, r, "R9", nfns, "an operand decoded from bytecode is silently replaced by its low-order bits: an out-of-range operand is accepted with a different meaning instead of being rejected")
-	r.Floor("R9", "narrowing conversions in package vm", n9, 2)
+	r.Floor("R9", "narrowing conversions in package vm", n9, 1)
 }
 
 func describeSite(s core.BoundsSite) string {
